@@ -291,3 +291,10 @@ package qbft
 //@ callreq c.deleteInstanceIO: a1 == duty
 //@ ensures ncalls(c.getInstanceIO) == 0
 //@ loop 1 invariant ncalls(c.getInstanceIO) == 0
+
+// A member that has decided stays in its instance (until the duty expires), so that it answers a later ROUND-CHANGE of
+// a lagging member with DECIDED (Algorithm 3:17 of the QBFT paper, implemented in core/qbft.Run). Known finding F-C04b:
+// the decide callback cancels the instance context, the member leaves, and a lagging member can be left without a quorum.
+//@ func (c *Consensus) runInstance$3
+//@ props C04
+//@ ensures ncalls(cancel) == 0
